@@ -406,30 +406,60 @@ def generate(ctx):
     f3 = pg.find_def(t3, "UnetModel3d.forward", p3)
     out += "Definition gen_cat_idx3 : list nat := [%s]%%nat.\n" % "; ".join(map(str, _cat_idx(t3, "UnetModel3d.forward", 3, p3, "UnetModel3d.forward")))
     out += "Definition gen_unet3d_layers (L : nat) : list sop :=\n  %s.\n" % _unet_program(t3, "UnetModel3d", ["ConvBlock3D", "TransposeConvBlock3D"], "F.avg_pool3d(output, kernel_size=2, stride=2, padding=0)", "gen_cat_idx3", p3)
-    src3 = ast.unparse(f3)
-    if "F.avg_pool3d(output, kernel_size=2, stride=2, padding=0)" not in src3 or "output, inp_pad = pad_to_pow_of_2(input_data, self.num_pool_layers)" not in src3:
-        _fail("UnetModel3d.forward: pooling / pad_to_pow_of_2 call outside subset", f3, p3)
-    want = "output = output[:, :, inp_pad[4]:output.shape[2] - inp_pad[5], inp_pad[2]:output.shape[3] - inp_pad[3], inp_pad[0]:output.shape[4] - inp_pad[1]]"
-    if want not in src3.replace(" : ", ":") or "if sum(inp_pad) != 0:" not in src3:
-        _fail("UnetModel3d.forward: the crop after the up path is not the inverse index map of pad_to_pow_of_2", f3, p3)
-    pp = pg.find_def(t3, "pad_to_pow_of_2", p3)
-    body = pg.strip_doc(pp.body)
-    if ast.unparse(body[0]) != "diffs = [_ - 2 ** k for _ in inp.shape[2:]]" or ast.unparse(body[1]) != "padding = [0, 0, 0, 0, 0, 0]":
-        _fail("pad_to_pow_of_2: prologue outside subset", body[0], p3)
-    loop = body[2]
-    if not (isinstance(loop, ast.For) and ast.unparse(loop.target) == "(i, diff)" and ast.unparse(loop.iter) == "enumerate(diffs[::-1])" and len(loop.body) == 1 and isinstance(loop.body[0], ast.If) and not loop.body[0].orelse and len(loop.body[0].body) == 2):
-        _fail("pad_to_pow_of_2: loop outside subset", loop, p3)
-    tr = pg.ExprT({"diff": "(n - 2 ^ k)"}, p3)
-    cond = tr.b(loop.body[0].test)
-    a0, a1 = loop.body[0].body
-    if ast.unparse(a0.targets[0]) != "padding[2 * i]" or ast.unparse(a1.targets[0]) != "padding[2 * i + 1]":
-        _fail("pad_to_pow_of_2: before / after entries are not 2i and 2i+1", a0, p3)
-    lo_e = tr.z(a0.value)
-    tr.env["padding[2 * i]"] = lo_e
-    hi_e = tr.z(a1.value)
-    rest = ast.unparse(ast.Module(body=body[3:], type_ignores=[]))
-    if "if sum(padding) > 0:\n    inp = F.pad(inp, padding)" not in rest or "return (inp, padding)" not in rest:
-        _fail("pad_to_pow_of_2: epilogue outside subset", pp, p3)
+    # pad_to_pow_of_2 on a 5-D input (value trees of a symbolic execution): per spatial axis, taken from the last one, the
+    # entries 2i / 2i+1 of the list handed to F.pad
+    S = lambda n: ("sym", n)
+    inp = S("inp")
+    dims = tuple(S("n%d" % i) for i in range(5))
+    t, _n = X.run_function(t3, p3, "pad_to_pow_of_2", attrs={(inp, "shape"): ("tuple", dims)})
+    t = X.lift_ife(X.prune_raises(X.drop_do(t)))
+    pow2 = {("bin", "**", X.const(2), S("k"))}
+    forms = set()
+    for conds, lf in X.leaves(t):
+        v = lf[1]
+        if not (v[0] == "tuple" and len(v[1]) == 2 and v[1][1][0] == "list" and len(v[1][1][1]) == 6):
+            _fail("pad_to_pow_of_2: does not return (tensor, list of six paddings)", None, p3)
+        data, padding = v[1]
+        if data != inp and not (data[0] == "call" and data[1] == ("attr", S("F"), "pad") and data[2][:1] == (inp,) and X.arg(data, 1, "pad") == padding and len(data[2]) + len(data[3]) == 2):
+            _fail("pad_to_pow_of_2: what is returned is neither the input nor F.pad(input, padding): %s" % X.show(data)[:100], None, p3)
+        if data == inp and not any(c[0] == "cmp" and X.find_nodes(c, lambda u: u[0] == "call" and u[1] == S("sum")) for c, pol in conds) and padding[1] != (X.const(0),) * 6:
+            _fail("pad_to_pow_of_2: the input is returned unpadded although a padding is computed", None, p3)
+        for i in range(3):
+            n = dims[4 - i]
+            em = X.Emit(lambda u: "n" if u == n else "(2 ^ k)" if u in pow2 else None, p3)
+            tests = [(c, pol) for c, pol in conds if X.find_nodes(c, lambda u: u == n) and not X.find_nodes(c, lambda u: u[0] == "call" and u[1] == S("sum"))]
+            if len(tests) != 1:
+                _fail("pad_to_pow_of_2: the path does not test axis %d exactly once" % (4 - i), None, p3)
+            c, pol = tests[0]
+            lo_v, hi_v = padding[1][2 * i], padding[1][2 * i + 1]
+            if pol:
+                forms.add((em.b(c), em.z(lo_v), em.z(hi_v)))
+            elif (lo_v, hi_v) != (X.const(0), X.const(0)):
+                _fail("pad_to_pow_of_2: an axis that needs no padding gets one", None, p3)
+    if len(forms) != 1:
+        _fail("pad_to_pow_of_2: the three axes are padded by different rules: %s" % sorted(forms), None, p3)
+    cond, lo_e, hi_e = forms.pop()
+    # UnetModel3d.forward: pad first, and crop the result by the inverse index map of that padding
+    t, _n = X.run_function(t3, p3, "UnetModel3d.forward", opaque={"pad_to_pow_of_2"})
+    padcall = ("call", S("pad_to_pow_of_2"), (S("input_data"), ("attr", S("self"), "num_pool_layers")), ())
+    ipad = ("sub", padcall, X.const(1))
+    full = ("slice", X.NONE, X.NONE, X.NONE)
+    saw_crop = saw_plain = False
+    for conds, lf in X.leaves(X.lift_ife(X.prune_raises(X.drop_do(t)))):
+        v = lf[1]
+        nz = [pol for c, pol in conds if X.find_nodes(c, lambda u: u == ipad)]
+        if v[0] == "sub":
+            base, idx = v[1], v[2]
+            want = ("tuple", (full, full) + tuple(("slice", ("sub", ipad, X.const(4 - 2 * j)), ("bin", "-", ("sub", ("attr", base, "shape"), X.const(2 + j)), ("sub", ipad, X.const(5 - 2 * j))), X.NONE) for j in range(3)))
+            if idx != want or base[0] != "after":
+                _fail("UnetModel3d.forward: the crop after the up path is not the inverse index map of pad_to_pow_of_2: %s" % X.show(idx)[:160], None, p3)
+            saw_crop = True
+        elif v[0] == "after":
+            saw_plain = True
+        else:
+            _fail("UnetModel3d.forward: what is returned is not the (cropped) output of the up path", None, p3)
+    if not saw_crop:
+        _fail("UnetModel3d.forward: the input padding is never cropped off again", None, p3)
     out += "Definition gen_p2_lo (k n : Z) : Z := if %s then %s else 0.\nDefinition gen_p2_hi (k n : Z) : Z := if %s then %s else 0.\n" % (cond, lo_e, cond, hi_e)
     out += "Definition gen_p2_start (k n c : Z) : Z := gen_p2_lo k n.\nDefinition gen_p2_stop (k n c : Z) : Z := c - gen_p2_hi k n.\n"
     pm = ctx.src(MWCNN)
